@@ -60,6 +60,9 @@ type Conn struct {
 	// LogFailedPublish: a publish refused by FailPublish is still written to the log (kind
 	// "pub", note "failed"): the attempt is an effect of the calling code.
 	LogFailedPublish bool
+	// LogAfterClose: a publish made after Close is refused, but still written to the log
+	// (kind "pub", note "after-close").
+	LogAfterClose bool
 	nsub, npub       int
 	// OnPublish is called (outside the lock) after a publish was logged.
 	OnPublish func(Entry)
@@ -141,6 +144,9 @@ func (c *Conn) publish(subject, reply string, payload []byte) error {
 	}
 	c.mu.Lock()
 	if c.Closed > 0 {
+		if c.LogAfterClose {
+			c.log = append(c.log, Entry{Seq: len(c.log), Kind: "pub", Subject: subject, Reply: reply, Data: append([]byte(nil), payload...), Note: "after-close"})
+		}
 		c.mu.Unlock()
 		return nats.ErrConnectionClosed
 	}
